@@ -104,6 +104,18 @@ def handler (op : String) (j : Json) : Option (R Json) :=
     | none => pure Json.null
     | some (brs, V) =>
       pure <| Json.mkObj [("branches", jarr (brs.map fun b => Json.str (branchStr b))), ("V", jmat n (ofTable V))]
+  | "dec.absorb" => some do
+    let m ← getNat j "m"
+    pure <| jarr ((absorbUpdates m).map fun u => jarr [
+      Json.str (match u.slot with | .sigma => "sigma" | .edge => "edge" | .out => "out"),
+      jnat u.mode, jnat u.layer, Json.bool u.plus, jnat u.j])
+  | "dec.takagiOrder" => some do
+    let l ← asIntList (← j.getObjVal? "l")
+    pure <| Json.mkObj [("order", jarr ((takagiOrder l).map fun p => jarr [jint p.1, jnat p.2])),
+      ("phaseSq", intList (l.map takagiPhaseSq))]
+  | "dec.bmPerm" => some do
+    let n ← getNat j "n"
+    pure <| natList ((List.range (2 * n)).map (bmPerm n))
   | _ => none
 
 end SFV.Drv.Decomp
